@@ -1,7 +1,7 @@
 """GATE (C06): no lowering is reachable unless the error set was tested after parsing and checking.
 ERRSET-SINK (C06): every public report method of the error set inserts into the set that has_errors tests."""
 from ..core import RuleResult
-from ..cfg import cfg_of
+from ..cfg import cfg_of, single_def
 from ..callgraph import body_refs
 from ..dataflow import operand_root, call_sites, switch_on_call_result, root_local
 from ..facts import callee, ty_mentions
@@ -62,7 +62,7 @@ def run_gate(prog, tier, repo):
         gates.append((b, hs, allrefs))
     if not gates:
         res.cannot_decide('no function both tests ErrorSet::has_errors and calls a lowering function')
-        return res
+        return [res]
     for b, hs, allrefs in gates:
         cfg = cfg_of(b)
         # lowering blocks of b: direct calls to L, or construction of a closure that references L
@@ -97,6 +97,7 @@ def run_gate(prog, tier, repo):
             gate_edges.append((sbb, zero[0]))
             loc, _ = operand_root(b, ht[3][0])
             err_locals.add(loc)
+        gate_edges = _variant_implied_edges(b, cfg, gate_edges)
         for bi, names in sorted(lblocks.items()):
             key = f'gate:{b.name}:{"+".join(sorted(n.split("::")[-1] for n in names))}'
             line = b.blocks[bi].term[7] if b.blocks[bi].term[0] == 'call' else None
@@ -244,8 +245,18 @@ def run_assign_all_paths(prog, tier, repo):
             continue
         b = bs[0]
         cfg = cfg_of(b)
+
+        def always_checks(hid, depth=0):
+            hb = prog.bodies.get(hid)
+            if hb is None or not hb.name.startswith('samlang_checker::main_checker::') or hb.kind == 'closure' or depth > 1:
+                return False
+            hc = [bi for bi, bl in enumerate(hb.blocks) if not bl.cleanup and bl.term[0] == 'call'
+                  and ((callee(bl.term)[1] or '').endswith('main_checker::assignability_check')
+                       or (callee(bl.term)[0] != hid and always_checks(callee(bl.term)[0], depth + 1)))]
+            return bool(hc) and cfg_of(hb).nodes_postdominate(hc, 0)
         checks = [bi for bi, bl in enumerate(b.blocks) if not bl.cleanup and bl.term[0] == 'call'
-                  and (callee(bl.term)[1] or '').endswith('main_checker::assignability_check')]
+                  and ((callee(bl.term)[1] or '').endswith('main_checker::assignability_check')
+                       or (callee(bl.term)[0] != b.id and always_checks(callee(bl.term)[0])))]
         key = f'assign:{what}'
         if checks and cfg.nodes_postdominate(checks, 0):
             res.ok(key, b.loc(), f'{b.name}: every path performs an assignability check ({len(checks)} sites)')
@@ -548,6 +559,59 @@ def run_private_guard(prog, tier, repo):
                 if nxt is None:
                     break
                 cur = nxt
+        # ... or spelled out: a branch on a value computed from the `private` flag, one side of which cannot reach the lookups
+        def reads_private(l, depth=0):
+            if depth > 5:
+                return False
+            sd_ = single_def(b, l)
+            if not sd_ or sd_[1] == 'term':
+                return False
+            rv = sd_[2]
+            pls = []
+            if rv[0] == 'use' and rv[1][0] in ('c', 'm'):
+                pls.append(rv[1][1])
+            elif rv[0] == 'un' and rv[2][0] in ('c', 'm'):
+                pls.append(rv[2][1])
+            elif rv[0] == 'bin':
+                pls += [o[1] for o in rv[2:4] if o[0] in ('c', 'm')]
+            elif rv[0] in ('copyderef',):
+                pls.append(rv[1])
+            for pl in pls:
+                if any(e[0] == 'f' and e[4] == 'private' for e in pl.proj):
+                    return True
+                if not pl.proj and reads_private(pl.local, depth + 1):
+                    return True
+            return False
+        look_blocks = [bi for bi, _t in lookups]
+        for bj, bl2 in enumerate(b.blocks):
+            t2 = bl2.term
+            if bl2.cleanup or t2[0] != 'switch' or t2[1][0] not in ('c', 'm'):
+                continue
+            direct = any(e[0] == 'f' and e[4] == 'private' for e in t2[1][1].proj)
+            if not (direct or (not t2[1][1].proj and reads_private(t2[1][1].local))):
+                continue
+            succs_ = [tg for _v, tg in t2[2]] + [t2[3]]
+            can = {tg: any(x in cfg.reachable(tg) for x in look_blocks) for tg in succs_}
+            if any(can.values()) and not all(can.values()):
+                pass_edges += [(bj, tg) for tg in succs_ if can[tg]]
+            elif all(can.values()):
+                # short-circuit: `private && other_module` - the flag's true side runs into a second test that separates
+                for tg in succs_:
+                    cur_, hops = tg, 0
+                    while hops < 12 and b.blocks[cur_].term[0] in ('goto', 'false_edge', 'call', 'assert') and not b.blocks[cur_].cleanup:
+                        t3 = b.blocks[cur_].term
+                        nxt_ = t3[1] if t3[0] in ('goto', 'false_edge') else (t3[5] if t3[0] == 'call' else t3[4])
+                        if nxt_ is None:
+                            break
+                        cur_, hops = nxt_, hops + 1
+                    t3 = b.blocks[cur_].term
+                    if t3[0] != 'switch' or cur_ == bj or not cfg.edges_dominate([(bj, tg)], cur_):
+                        continue
+                    s2 = [x for _v, x in t3[2]] + [t3[3]]
+                    can2 = {x: any(y in cfg.reachable(x) for y in look_blocks) for x in s2}
+                    if any(can2.values()) and not all(can2.values()):
+                        pass_edges += [(cur_, x) for x in s2 if can2[x]]
+                        pass_edges += [(bj, other) for other in succs_ if other != tg]
         for bi, t in lookups:
             n += 1
             short = (callee(t)[1] or '').split('::')[-1]
@@ -560,3 +624,77 @@ def run_private_guard(prog, tier, repo):
                               f'public function), so a use of a private class from another module is accepted')
     res.floor('by-name member lookups in the typing context', n, 2)
     return [res]
+
+
+def _variant_implied_edges(b, cfg, edges):
+    """The decision can travel as a value: `if has_errors { return Err(..) } Ok(..)` in a helper, `helper()?` in the caller.
+    If every construction of variant v of an enum-typed local is dominated by the given edges, then taking the v-edge of a
+    switch on that local's discriminant (directly, after whole moves, or after `Try::branch`, which keeps the variant index)
+    implies that one of the given edges was taken. Returns the edges extended by such switch edges (fixpoint)."""
+    from ..cfg import def_sites
+    edges = list(edges)
+    if not edges:
+        return edges
+    defs = def_sites(b)
+    for _round in range(3):
+        added = False
+        # enum-typed locals -> variant -> construction blocks
+        built = {}
+        for bi, bl in enumerate(b.blocks):
+            if bl.cleanup:
+                continue
+            for st in bl.stmts:
+                if st[0] == 'a' and not st[1].proj and st[2][0] == 'agg' and st[2][1][0] == 'adt' and st[2][1][2] is not None:
+                    built.setdefault(st[1].local, {}).setdefault(st[2][1][2], []).append(bi)
+        clean = {}     # local -> set of clean variant indices
+        for l, vs in built.items():
+            # every definition of l must be one of these aggregates (no calls, no copies from elsewhere)
+            ds = [d for d in defs.get(l, []) if not b.blocks[d[0]].cleanup]
+            if any(d[1] == 'term' or d[2][0] != 'agg' for d in ds):
+                continue
+            cv = {v for v, blocks in vs.items() if all(cfg.edges_dominate(edges, x) for x in blocks)}
+            if cv and len(vs) > 1:
+                clean[l] = cv
+
+        def origin(l, depth=0):
+            if l in clean:
+                return l
+            if depth > 8:
+                return None
+            ds = [d for d in defs.get(l, []) if not b.blocks[d[0]].cleanup]
+            if len(ds) != 1:
+                # several whole moves out of locals with the same origin (one per inlined `return`)
+                os_ = set()
+                for d in ds:
+                    if d[1] != 'term' and d[2][0] == 'use' and d[2][1][0] in ('c', 'm') and not d[2][1][1].proj:
+                        os_.add(origin(d[2][1][1].local, depth + 1))
+                    else:
+                        return None
+                return os_.pop() if len(os_) == 1 else None
+            d = ds[0]
+            if d[1] == 'term':
+                t = d[2]
+                if (callee(t)[1] or '').endswith('as std::ops::Try>::branch') and t[3] and t[3][0][0] in ('c', 'm') and not t[3][0][1].proj:
+                    return origin(t[3][0][1].local, depth + 1)
+                return None
+            rv = d[2]
+            if rv[0] == 'use' and rv[1][0] in ('c', 'm') and not rv[1][1].proj:
+                return origin(rv[1][1].local, depth + 1)
+            return None
+        for bi, bl in enumerate(b.blocks):
+            t = bl.term
+            if bl.cleanup or t[0] != 'switch' or t[1][0] not in ('c', 'm'):
+                continue
+            sd = single_def(b, t[1][1].local)
+            if not (sd and sd[1] != 'term' and sd[2][0] == 'disc' and not sd[2][1].proj):
+                continue
+            o = origin(sd[2][1].local)
+            if o is None:
+                continue
+            for v, tg in t[2]:
+                if v in clean[o] and (bi, tg) not in edges:
+                    edges.append((bi, tg))
+                    added = True
+        if not added:
+            break
+    return edges
